@@ -10,6 +10,7 @@ import SpoxModel.Props.C09
 #print axioms C09.entry_invariant
 #print axioms C09.node_valid_at_import_partial
 #print axioms C09.decision_total
+#print axioms C09.convert_only_when_needed
 #print axioms C09.body_opsets_agree
 #print axioms C09.function_opsets_agree
 #print axioms C09.body_own_opsets_pinned_counterexample
